@@ -55,10 +55,20 @@ CATALOGUE = {
   (ENC, "return [0x90 | msg['channel'], msg['note'], msg['velocity']]", "return [0x90 | msg['channel'], msg['velocity'], msg['note']]", C),
   (ENC, "return [0xf2, pos & 0x7f, pos >> 7]", "return [0xf2, pos >> 7, pos & 0x7f]", C),
   (MSGS, "f'{byte:02X}'", "f'{byte:X}'", C),
+  (MSGS, "f'{byte:02X}'", "'%2X' % byte", C),
+  (MSGS, "f'{byte:02X}'", "'%02x' % byte", S),
+  (MSGS, "f'{byte:02X}'", "'{:02X}'.format(byte)", S),
+  (MSGS, "def hex(self, sep=' '):", "def hex(self, sep=''):", S),
+  (MSGS, "return cl.from_bytes(bytearray.fromhex(text), time=time)", "return cl.from_bytes(bytearray.fromhex(text))", C),
+  (MSGS, "return cl.from_bytes(bytearray.fromhex(text), time=time)", "return cl.from_bytes(list(bytearray.fromhex(text)), time)", S),
+  (MSGS, "        return bytearray(self.bytes())", "        return bytearray(self.bytes()[:3])", C),
+  (MSGS, "        return bytearray(self.bytes())", "        return bytearray(encode_message(self.__dict__))", S),
   (DEC, "msg['channel'] = status_byte & 0x0f", "msg['channel'] = status_byte & 0x07", C),
  ],
  'C02': [
   (DEC, "    elif len(data) != spec['length'] - 1:", "    elif len(data) < spec['length'] - 1:", C),
+  (MSGS, "return cl.from_bytes(bytearray.fromhex(text), time=time)", "return cl(**decode_message(bytearray.fromhex(text), time=time, check=False))", C),
+  (MSGS, "        text = re.sub(r'\\s', ' ', text)\n", "        text = text.replace(' ', '')\n", S),   # fromhex skips all ASCII whitespace (3.7+); digits stay paired
   (DEC, "    if check:\n        check_data(data)", "    if check and status_byte != 0xf1:\n        check_data(data)", C),
   (DEC, "        if end != SYSEX_END:", "        if end != SYSEX_END and end < 128:", C),
   (DEC, "    except KeyError as ke:", "    except IndexError as ke:", C),
@@ -230,7 +240,12 @@ CATALOGUE = {
         "    elif isinstance(msg, MetaMessage):\n        class_ = FrozenMetaMessage\n    elif isinstance(msg, UnknownMetaMessage):\n        class_ = FrozenUnknownMetaMessage", C),
   (FRZ, "class FrozenMetaMessage(Frozen, MetaMessage):", "class FrozenMetaMessage(MetaMessage, Frozen):", C),
   (FRZ, "    frozen = class_.__new__(class_)\n    vars(frozen).update(vars(msg))\n    return frozen", "    frozen = class_.__new__(class_)\n    frozen.__dict__ = vars(msg)\n    return frozen", C),
-  (FRZ, "        return hash(tuple(sorted(vars(self).items())))", "        return hash((self.type, self.time))", C),
+  (FRZ, "        return hash(tuple(sorted(vars(self).items())))", "        return hash(tuple(vars(self).items()))", C),
+  (FRZ, "        return hash(tuple(sorted(vars(self).items())))", "        return hash((id(self), tuple(sorted(vars(self).items()))))", C),
+  (FRZ, "        return hash(tuple(sorted(vars(self).items())))", "        return hash(frozenset(self.__dict__.items()))", S),
+  (MSGS, "        return vars(self) == vars(other)", "        return self.__dict__ == other.__dict__", S),
+  (MSGS, "        return vars(self) == vars(other)", "        a = dict(vars(self)); b = dict(vars(other))\n        a.pop('time'); b.pop('time')\n        return a == b", C),
+  (FRZ, "        return hash(tuple(sorted(vars(self).items())))", "        return hash((self.type, self.time))", S),   # weaker hash, but equal messages still hash equal: the property holds
   (FRZ, "    if isinstance(msg, Frozen):\n        # Already frozen.\n        return msg", "    if isinstance(msg, Frozen):\n        # Already frozen.\n        return msg.copy()", C),
   (FRZ, "    if msg is None:\n        return None\n    elif not isinstance(msg, Frozen):", "    if not isinstance(msg, Frozen):", C),
  ],
